@@ -1,6 +1,7 @@
 package harness
 
 import (
+	"bytes"
 	"errors"
 	"fmt"
 	"runtime"
@@ -320,11 +321,25 @@ func propLinearizable(c *Case) {
 		c.Class("eviction-enabled")
 	}
 
+	prefill := 0
+	if !evict && c.Weighted("prefill", 24, 1) == 1 {
+		prefill = 12000
+		c.Class("prefilled-12000")
+	}
+
 	c.Bubble(func() {
 		be := newCaseBackend(c, kind, cache.Config{
 			TimeToLive: cfgTTL, ExpirationJitter: -1, EvictionStrategy: strategy, CountSoftLimit: limit, EvictFraction: 0.5,
 			DeleteExpiredJobInterval: farFuture, DeleteExpiredAfter: time.Hour,
 		})
+
+		// now and then the concurrent phase runs on top of a large population (batch operations of
+		// big caches may take other code paths); the filler keys belong to no slot
+		if prefill > 0 {
+			for i := 0; i < prefill; i++ {
+				_ = be.Write(bg, []byte(fmt.Sprintf("fill-%05d", i)), "fill")
+			}
+		}
 
 		record := func(client int, in lzIn, out lzOut, call, ret int64) {
 			hmu.Lock()
@@ -439,6 +454,10 @@ func propLinearizable(c *Case) {
 						case lzWalk:
 							w := walkObs{call: atomic.AddInt64(&stamp, 1), client: cid}
 							_, _ = be.Walk(func(wk []byte, v interface{}, exp time.Time) error {
+								if prefill > 0 && bytes.HasPrefix(wk, []byte("fill-")) {
+									return nil
+								}
+
 								at := atomic.AddInt64(&stamp, 1)
 								w.rows = append(w.rows, walkRow{key: string(wk), val: gstr(v), e: exp.UnixNano()})
 								w.stamps = append(w.stamps, at)
